@@ -263,6 +263,69 @@ func observe(req c04wl.RecoverReq) (resp c04wl.RecoverResp) {
 	}
 	resp.FinalComplete = t.Complete()
 	resp.CacheFinal = readCache(ag.cads, d.Hex())
+	if resp.FinalComplete {
+		resp.Epilogue = evictAndDownloadAgain(ag, mi, req)
+	}
+	return
+}
+
+// evictAndDownloadAgain deletes the torrent through the real API and downloads
+// the blob once more on the same (recovered) directories.
+func evictAndDownloadAgain(ag *agent, mi *core.MetaInfo, req c04wl.RecoverReq) (e c04wl.Epilogue) {
+	e.Ran = true
+	e.Pieces = map[int][]byte{}
+	e.CreateErrs = []string{}
+	d := mi.Digest()
+	if err := ag.archive.DeleteTorrent(d); err != nil {
+		e.DeleteErr = err.Error()
+		return
+	}
+	e.CacheAfterDelete = readCache(ag.cads, d.Hex())
+	var t storage.Torrent
+	var err error
+	for attempt := 0; attempt < 2 && t == nil; attempt++ {
+		t, err = ag.archive.CreateTorrent(namespace, d)
+		if err != nil {
+			e.CreateErrs = append(e.CreateErrs, err.Error())
+			t = nil
+		}
+	}
+	if t == nil {
+		return
+	}
+	e.Created = true
+	e.Complete = t.Complete()
+	e.NumPieces = t.NumPieces()
+	e.Bits = bits(t.Bitfield(), t.NumPieces())
+	for _, i := range e.Bits {
+		r, err := t.GetPieceReader(i)
+		if err == nil {
+			var b []byte
+			b, err = io.ReadAll(r)
+			_ = r.Close()
+			e.Pieces[i] = b
+		}
+		if err != nil {
+			if e.PieceErrs == nil {
+				e.PieceErrs = map[int]string{}
+			}
+			e.PieceErrs[i] = err.Error()
+		}
+	}
+	e.CacheAfter = readCache(ag.cads, d.Hex())
+	for _, i := range t.MissingPieces() {
+		if i < 0 || i >= mi.NumPieces() {
+			continue
+		}
+		if err := t.WritePiece(piecereader.NewBuffer(pieceOf(req.Blob, req.PieceLength, i)), i); err != nil {
+			if e.WriteErrs == nil {
+				e.WriteErrs = map[int]string{}
+			}
+			e.WriteErrs[i] = err.Error()
+		}
+	}
+	e.FinalComplete = t.Complete()
+	e.CacheFinal = readCache(ag.cads, d.Hex())
 	return
 }
 
